@@ -114,6 +114,8 @@ def real_replay(job, sim_result):
                 env = {"PATH": REAL_BIN + ":/venv/bin:/usr/bin:/bin", "SOURCE_DATE_EPOCH": W.SOURCE_DATE_EPOCH, "HOME": "/nonexistent",
                        "LANG": "C.UTF-8", "LC_ALL": "C.UTF-8", "PYTHONDONTWRITEBYTECODE": "1", "PYTHONHASHSEED": str(job.get("hashseed", 0)),
                        "PYTHONPATH": REAL_SITE, "NSIM_REAL_FAULTS": json.dumps(faults)}
+                if os.environ.get("NANOEMOJI_SRC"):  # a patched scratch copy of the sources is under test
+                    env["PYTHONPATH"] = os.environ["NANOEMOJI_SRC"] + ":" + REAL_SITE
                 p = subprocess.run(["/venv/bin/nanoemoji"] + [a.replace("$ROOT", root) for a in op["argv"]], cwd=cwd, env=env,
                                    stdout=subprocess.PIPE, stderr=subprocess.STDOUT, timeout=600)
                 after = _walk(bdir)
